@@ -54,6 +54,12 @@ func idents(fl string, k int) []string {
 		ids = []string{idA, idA, idB}
 	case 4:
 		ids = []string{idA, idA}
+	case 7: // mixed lengths: the bytewise order (the producers') and the numeric order of the big-endian values disagree
+		ids = []string{"0100", "ff"}
+	case 8:
+		ids = []string{"0100", "02", "ff"}
+	case 9:
+		ids = []string{"00ff", "010000", "ffff"}
 	case 5:
 		ids = []string{idN1, idN2}
 	case 6:
@@ -430,7 +436,7 @@ func main() {
 	run := vh.Start("Verif.Corr.C03", 60)
 	defer run.Finish()
 	run.SetPreamble("From Verif Require Import Model.EpochKG Model.EpochKGLabels Model.EpochKGHandler Model.GossipNet.\nOpen Scope N_scope.")
-	run.Rule = "schedules on n real handler stacks per flavour: (core, n=3, t=2, one identity) all interleavings of the three triggers and six share deliveries up to renaming of the nodes, keys messages delivered lazily (keys messages delivered lazily; thorough: eagerly as well), all interleavings with two triggered keypers; all interleavings with two triggered keypers whose trigger names the same identity twice; sampled complete schedules (one or two identities, [A, A, B], [A, A]) with losses (up to n-t share messages per receiver), duplicates, repeated triggers for core / service / Gnosis (+ access node), n <= 5, one or two identities; sampled partial schedules; sampled two-round schedules (every keyper triggered for the first identity, then for both); rounds over near identities (same length, same first and last bytes) in both orders and triggers naming two of them; non-trivial = at least one keys message was published; distinct by canonical rendering of configuration and schedule"
+	run.Rule = "schedules on n real handler stacks per flavour: (core, n=3, t=2, one identity) all interleavings of the three triggers and six share deliveries up to renaming of the nodes, keys messages delivered lazily (quick: every 2nd of them, keys messages delivered lazily; thorough: all, and eagerly as well), all interleavings with two triggered keypers; all interleavings with two triggered keypers whose trigger names the same identity twice; sampled complete schedules (one or two identities, [A, A, B], [A, A]) with losses (up to n-t share messages per receiver), duplicates, repeated triggers for core / service / Gnosis (+ access node), n <= 5, one or two identities; sampled partial schedules; sampled two-round schedules (every keyper triggered for the first identity, then for both); core: identities of different lengths whose bytewise and numeric orders disagree ([0100, ff], [0100, 02, ff], [00ff, 010000, ffff]); rounds over near identities (same length, same first and last bytes) in both orders and triggers naming two of them; non-trivial = at least one keys message was published; distinct by canonical rendering of configuration and schedule"
 	workers := runtime.NumCPU() / 2
 	if workers < 1 {
 		workers = 1
@@ -464,7 +470,7 @@ func main() {
 			run.Replay = ""
 		}
 		core := g.SimConfig{Flavour: "core", N: 3, T: 2, Idents: idents("core", 1)}
-		stride := run.Scale(1, 1)
+		stride := run.Scale(2, 1)
 		count := 0
 		interleavings(3, []int{0, 1, 2}, allDeliveries(3, []int{0, 1, 2}), func(ops []g.SimOp) {
 			count++
@@ -489,6 +495,22 @@ func main() {
 			interleavings(3, []int{0, 1}, allDeliveries(3, []int{0, 1}), func(ops []g.SimOp) {
 				emit(&caseJ{Cfg: cfg, Ops: withKeys(ops, false), Complete: true, Origin: "exhaustive:" + fl + ":two-triggered:repeated-identity"})
 			})
+		}
+		// identities of different lengths (core flavour: block numbers in minimal big-endian form, ...)
+		for _, k := range []int{7, 8, 9} {
+			cfg := g.SimConfig{Flavour: "core", N: 3, T: 2, Idents: idents("core", k)}
+			n := 0
+			interleavings(3, []int{0, 1}, allDeliveries(3, []int{0, 1}), func(ops []g.SimOp) {
+				n++
+				if n%4 == 1 {
+					emit(&caseJ{Cfg: cfg, Ops: withKeys(ops, false), Complete: true, Origin: "exhaustive:core:two-triggered:mixed-length-identities"})
+				}
+			})
+			for i := 0; i < run.Scale(4, 60); i++ {
+				c := randomSchedule(run.RNG.Fork(), "core", 3, 2, k)
+				c.Origin = strings.Replace(c.Origin, "random:", "random-mixed-length:", 1)
+				emit(c)
+			}
 		}
 		if run.Thorough {
 			for _, fl := range []string{"service", "gnosis"} {
